@@ -54,4 +54,54 @@ Definition ok_warm_C10 (c : wcase) : bool :=
   | Some t => match seq_check [] 0 (flat_map sr_frames t) with Some _ => true | None => false end
   end.
 
+(** C09: a delay measurement produced in the tail carries, as its event time
+    (= t3), the transmit timestamp that was reported for the request whose
+    sequence id the completing message bears - never that of another exchange.
+    Only exchanges whose timestamp was reported inside the tail are judged. *)
+Fixpoint id_get (m : list (Z * Z)) (id : Z) : option Z :=
+  match m with [] => None | (i, t) :: m' => if i =? id then Some t else id_get m' id end.
+
+Definition delay_meas (o : list tobs) : list measurement :=
+  flat_map (fun x => match snd x with
+                     | OFilterMeas m => match me_raw_delay m with Some _ => [m] | None => [] end
+                     | _ => []
+                     end) o.
+
+Fixpoint walk_C09 (seen : list (Z * Z)) (es : list event) (t : list step_result) : bool :=
+  match es, t with
+  | e :: es', SROk o _ :: t' =>
+      let seen' := match e with
+                   | EvSendTimestamp _ (CtxDelayReq id) ts =>
+                       match id_get seen id with Some _ => seen | None => (id, ts) :: seen end
+                   | _ => seen
+                   end in
+      let ok :=
+        match e with
+        | EvRecvGeneral _ frame | EvRecvEvent _ frame _ =>
+            match (if is_compatible frame then decoded frame else None) with
+            | Some m =>
+                match m_body m with
+                | BDelayResp _ _ =>
+                    forallb (fun x => match id_get seen (h_seq (m_header m)) with
+                                      | Some ts => me_event_time x =? ts
+                                      | None => true
+                                      end) (delay_meas o)
+                | _ => true
+                end
+            | None => true
+            end
+        | EvSendTimestamp _ (CtxDelayReq id) ts =>
+            forallb (fun x => me_event_time x =? (match id_get seen id with Some t0 => t0 | None => ts end)) (delay_meas o)
+        | _ => true
+        end in
+      ok && walk_C09 seen' es' t'
+  | _, _ => true
+  end.
+
+Definition ok_warm_C09 (c : wcase) : bool :=
+  match w_trace c with
+  | None => true
+  | Some t => walk_C09 [] (w_post c) t
+  end.
+
 Definition kf_warm (c : wcase) : Z := 0.
